@@ -14,7 +14,7 @@ class TheCheck(Check):
                    "carry the index / NULL / dangling / overlap / accounting logic of the models",
                    "containers covered in this revision: see the stream names in coverage.streams"]
 
-    _extra_modules = ['C15Seq', 'C15Map']     # per-family property files imported by Props/C15.lean
+    _extra_modules = ['C15Seq', 'C15Map', 'C15Harr']     # per-family property files imported by Props/C15.lean
 
     def __init__(self, tier, seed):
         super().__init__(tier, seed)
